@@ -119,7 +119,7 @@ def run_real(sc, workdir):
         rd = proxy
         if sc["saver"]:
             sav = W.StreamSaverWorker(proxy, os.path.join(workdir, "stream.wav"), cache_size_sec=sc["cache_bytes"] / (RATE_ * SW * CH))
-            S.add_role("sav", sav, sav._inbox)
+            S.add_role("sav", sav, inbox_of(sav))
             rd = sav
 
         class Rec(W.Worker):
@@ -141,11 +141,11 @@ def run_real(sc, workdir):
                 o = W.RegionSaverWorker(os.path.join(workdir, "reg%d" % j, sc.get("template", "det_{id}_{start:.3f}_{end:.3f}_{duration:.3f}.wav")), "wav")
             else:
                 o = W.AudioEventsJoinerWorker(sc["silence"], os.path.join(workdir, "join%d.wav" % j), None, RATE_, SW, CH)
-            S.add_role("obs%d" % j, o, o._inbox)
+            S.add_role("obs%d" % j, o, inbox_of(o))
             obs_objs.append(o)
         tok = W.TokenizerWorker(rd, obs_objs, min_dur=sc["min_dur"], max_dur=sc["max_dur"], max_silence=sc["max_silence"],
                                 strict_min_dur=sc["strict"], drop_trailing_silence=sc["drop"], energy_threshold=50)
-        S.add_role("tok", tok, tok._inbox)
+        S.add_role("tok", tok, inbox_of(tok))
         S.add_role("main")
         if sav is not None:
             sav.start()
@@ -558,6 +558,20 @@ def _cli_interrupt_job(args):
         res["blocks_read"] = len(consumed) // (WIN * SW * CH)
     return res, what
 
+
+def inbox_of(worker):
+    """the controlled queue a worker owns, whatever the attribute holding it is called (directly or one object deeper)"""
+    from ..sched import lockstep as L
+    d = object.__getattribute__(worker, "__dict__")
+    found = [v for v in d.values() if isinstance(v, L.SchedQueue)]
+    if not found:
+        for v in d.values():
+            dd = getattr(v, "__dict__", None)
+            if isinstance(dd, dict) and type(v).__module__.startswith("auditok"):
+                found.extend(x for x in dd.values() if isinstance(x, L.SchedQueue))
+    if len(found) != 1:
+        raise RuntimeError("worker %r owns %d queues" % (type(worker).__name__, len(found)))
+    return found[0]
 
 def slim(ob):
     out = {k: ob.get(k) for k in ("stuck", "error", "anomalies", "crashes", "steps", "nreads", "printed", "alive", "stop_step", "threads_alive", "transient")}
